@@ -10,6 +10,25 @@ from .calls import CallMixin
 from .stmt import StmtMixin
 
 
+def term_size(t, cap):
+    """number of AST nodes of t, counted up to cap"""
+    n = 0
+    stack = [t]
+    seen = set()
+    while stack and n < cap:
+        x = stack.pop()
+        i = x.get_id()
+        if i in seen:
+            continue
+        seen.add(i)
+        n += 1
+        if z3.is_quantifier(x):
+            stack.append(x.body())
+        elif z3.is_app(x):
+            stack.extend(x.children())
+    return n
+
+
 class Engine(Core, ExprMixin, CallMixin, StmtMixin):
     def __init__(self, src, schema, registry, mode="INV", bound=3, nrefs=None, nstrs=None, force_inline=()):
         Core.__init__(self, src, schema, registry, mode=mode, bound=bound, nrefs=nrefs, nstrs=nstrs)
@@ -36,6 +55,9 @@ class Engine(Core, ExprMixin, CallMixin, StmtMixin):
         self._keep_alive = []
         self.assuming_post = 0
         self.rec_limit = 2
+        self.collect_returns = None
+        self.def_cache = {}
+        self.loop_head = []
         self.bounded_only_clauses = []
         self.bounded_clauses_assumed = set()
 
@@ -117,46 +139,70 @@ class Engine(Core, ExprMixin, CallMixin, StmtMixin):
         for r in c.requires:
             self.assume(self.eval_spec(r, env, st, old_heap=self.fn_old_heap, old_env=env))
         n_pre = len(self.assumptions)
+        self.collect_returns = []
         self.exec_block(fn.body, st)
-        # ---- exit: postconditions
-        rv = st.ret_val
-        env2 = dict(env)
-        if c.returns is not None:
-            if rv is None:
-                raise Unsupported("%s declares a result but returns nothing" % qual)
-            if not is_true(st.ret):
-                self.oblige("safe", "returns-on-every-path", zbool(st.ret), self._exit_state(st), fn)
-            env2["result"] = self.coerce(rv, c.returns, fn)
-        exit_st = self._exit_state(st)
-        self.probe("exit-reachable", exit_st)
-        if c.result_is is not None:
-            rv_spec = self.eval_spec_val(c.result_is, env, exit_st, old_heap=self.fn_old_heap, old_env=env)
-            self.oblige("post", "result-is", self.val_eq(env2["result"], rv_spec), exit_st, fn, info={"clause": "result == " + c.result_is})
-        for label, e in c.ensures_labeled:
-            if label.startswith("bounded:") and self.mode != "UNROLL":
-                # clause decided only by the bounded stand-in (UNROLL); not part of the unbounded proof
-                self.bounded_only_clauses.append("%s/%s" % (qual, label))
-                continue
-            g = self.eval_spec(e, env2, exit_st, old_heap=self.fn_old_heap, old_env=env)
-            self.oblige_split("post", label, g, exit_st, fn, info={"clause": e})
-        # ---- frame
+        sites = self.collect_returns
+        self.collect_returns = None
+        # ---- exit points: every `return` statement (state at that statement) and falling off the end
+        exits = []
+        for k, (site, v, line) in enumerate(sites):
+            exits.append(("r%d" % k, site, v))
+        if not is_true(st.ret):
+            fall = st.copy()
+            fall.written = set(st.written)
+            if not is_false(st.ret):
+                fall.path.append(z3.Not(zbool(st.ret)))
+            fall.ret = False
+            fall.ret_val = None
+            exits.append(("end", fall, None))
+        single = len(exits) == 1
+        all_written = set(st.written)
+        for tag, est, v in exits:
+            all_written |= est.written
         frame = {}
         for key, fp in c.frame(self):
             frame[key] = fp
-        for key in sorted(st.written):
-            new_arr = self.heap_arr(exit_st, key)
-            old_arr = self.initial_heap_arr(key)
-            if key not in frame:
-                self.oblige("frame", "%s.%s" % key, new_arr == old_arr, exit_st, fn)
-            elif frame[key] not in (None, "*"):
-                fpv = self.eval_spec_val(frame[key], env, exit_st, old_heap=self.fn_old_heap, old_env=env)
-                x = self.qvar("r", self.S.Ref)
-                if self.S.ref_consts is not None:
-                    g = z3.And(*[z3.Implies(z3.Not(self.in_footprint(cst, fpv)), z3.Select(new_arr, cst) == z3.Select(old_arr, cst))
-                                 for cst in self.S.ref_consts])
-                else:
-                    g = z3.ForAll([x], z3.Implies(z3.Not(self.in_footprint(x, fpv)), z3.Select(new_arr, x) == z3.Select(old_arr, x)))
-                self.oblige("frame", "%s.%s" % key, g, exit_st, fn)
+        for tag, est, v in exits:
+            sfx = "" if single else "[%s]" % tag
+            live = self.live(est)
+            exit_st = self._exit_state(est)
+            if not is_true(live):
+                exit_st.path.append(zbool(live))
+            env2 = dict(env)
+            if c.returns is not None:
+                if v is None or v.ty.kind == "None":
+                    self.oblige("safe", "returns-a-value" + sfx, False, exit_st, fn)
+                    continue
+                env2["result"] = self.coerce(v, c.returns, fn)
+            if not (tag == "end" and len(exits) > 1):
+                self.probe("exit-reachable" + sfx, exit_st)
+            if c.result_is is not None:
+                rv_spec = self.eval_spec_val(c.result_is, env, exit_st, old_heap=self.fn_old_heap, old_env=env)
+                self.oblige("post", "result-is" + sfx, self.val_eq(env2["result"], rv_spec), exit_st, fn,
+                            info={"clause": "result == " + c.result_is})
+            for label, e in c.ensures_labeled:
+                if label.startswith("bounded:") and self.mode != "UNROLL":
+                    if tag == exits[0][0]:
+                        self.bounded_only_clauses.append("%s/%s" % (qual, label))
+                    continue
+                g = self.eval_spec(e, env2, exit_st, old_heap=self.fn_old_heap, old_env=env)
+                self.oblige_split("post", label + sfx, g, exit_st, fn, info={"clause": e})
+            for key in sorted(all_written):
+                new_arr = self.heap_arr(exit_st, key)
+                old_arr = self.initial_heap_arr(key)
+                if new_arr.eq(old_arr):
+                    continue
+                if key not in frame:
+                    self.oblige("frame", "%s.%s%s" % (key[0], key[1], sfx), new_arr == old_arr, exit_st, fn)
+                elif frame[key] not in (None, "*"):
+                    fpv = self.eval_spec_val(frame[key], env, exit_st, old_heap=self.fn_old_heap, old_env=env)
+                    x = self.qvar("r", self.S.Ref)
+                    if self.S.ref_consts is not None:
+                        g = z3.And(*[z3.Implies(z3.Not(self.in_footprint(cst, fpv)), z3.Select(new_arr, cst) == z3.Select(old_arr, cst))
+                                     for cst in self.S.ref_consts])
+                    else:
+                        g = z3.ForAll([x], z3.Implies(z3.Not(self.in_footprint(x, fpv)), z3.Select(new_arr, x) == z3.Select(old_arr, x)))
+                    self.oblige("frame", "%s.%s%s" % (key[0], key[1], sfx), g, exit_st, fn)
         return self.obligations
 
     def _exit_state(self, st):
@@ -257,6 +303,22 @@ class Engine(Core, ExprMixin, CallMixin, StmtMixin):
                 goals.append(g)
             s.add(z3.Not(z3.And(*goals)))
         else:
+            # portfolio over assumption subsets (dropping hypotheses is sound): large quantified assumptions that are
+            # irrelevant to the goal otherwise cause instantiation storms
+            if not want_model and self.mode == "INV" and ob.kind != "probe" and len(self.assumptions[:ob.n_assump]) > 25:
+                for cap, slice_ms in ((80, min(3000, timeout_ms // 4)), (400, min(6000, timeout_ms // 3))):
+                    s2 = z3.Solver()
+                    s2.set("timeout", slice_ms)
+                    for a in self.base_axioms():
+                        s2.add(a)
+                    for a in self.assumptions[:ob.n_assump]:
+                        if term_size(a, cap) < cap:
+                            s2.add(a)
+                    for p in ob.path:
+                        s2.add(p)
+                    s2.add(z3.Not(ob.goal))
+                    if s2.check() == z3.unsat:
+                        return {"result": "unsat", "portfolio": "assumptions with fewer than %d nodes" % cap}
             for a in self.assumptions[:ob.n_assump]:
                 s.add(a)
             for p in ob.path:
